@@ -127,7 +127,7 @@ package drpcstream
 //@   requires held(s.mu.Mutex)
 //@   requires err != nil
 //@   ensures [set]  sSend(s) && sRecv(s) && sTerm(s) && s.pbuf.err != nil
-//@   ensures [path] eventAfterLast("call:(*packetBuffer).Close", "call:(*Stream).checkFinished")
+//@   check   [path] eventAfterLast("call:(*packetBuffer).Close", "call:(*Stream).checkFinished")
 
 // ---- terminal operations. "wasTerm" is what the operation observed under s.mu; the documented
 // ---- state machine says: already terminated -> nil, nothing emitted; otherwise terminate and emit
@@ -348,4 +348,16 @@ package drpcstream
 //@   requires wr != nil
 //@   modifies allmem
 //@   ensures [fresh] result != nil && result.id.Stream == sid && result.id.Message == 0 && result.wr == wr
-//@   ensures [reset] eventCount("call:(*Writer).Reset") == 1
+//@   check   [reset] eventCount("call:(*Writer).Reset") == 1
+
+// ---- small accessors used by the manager
+//@ func (*Stream).ID
+//@   props C02
+//@   effect nilrecv
+//@   ensures [id] result == ite(s == nil, 0, s.id.Stream)
+//@ func (*Stream).IsFinished
+//@   props C03
+//@   ensures [fin] result == sFin(s)
+//@ func (*Stream).IsTerminated
+//@   props C03
+//@   ensures [term] result == sTerm(s)
